@@ -159,7 +159,12 @@ func generate(prop string, seed uint64, run int, tier string) *Scenario {
 			c := lr.IntN(len(sc.FO.Clients))
 			at := lr.IntN(len(sc.FO.Clients[c]) + 1)
 			ops := append([]FOOp(nil), sc.FO.Clients[c][:at]...)
-			ops = append(ops, FOOp{Kind: "expireAll"})
+			side := FOOp{Kind: "expireAll"}
+			if n := len(sc.FO.Keys); n > 0 {
+				side = FOOp{Kind: pick(lr, "expireAll", "expireAll", "sideWrite", "sideDelete"), Key: lr.IntN(n)}
+			}
+
+			ops = append(ops, side)
 			sc.FO.Clients[c] = append(ops, sc.FO.Clients[c][at:]...)
 		}
 	}
